@@ -9,6 +9,7 @@ Oracle (on the implementation only): a valid stream leaves the zone equal to the
 detectable class raises; whenever anything is raised the zone (full dump with TTLs) equals the zone
 before and no write transaction is left open.
 """
+from harness.core import Stalled as _Stalled
 import glob
 import json
 import os
@@ -464,7 +465,9 @@ def run_impl(zone, w: World, case, msgs, wires):
                         break  # "quiet" / "all": the caller stops feeding and leaves the block normally
                     try:
                         done = inb.process_message(m)
-                    except BaseException:
+                    except BaseException as _be:
+                        if isinstance(_be, _Stalled):
+                            raise
                         trace.append("!")
                         raise
                     trace.append(state_str(inb))
@@ -478,6 +481,8 @@ def run_impl(zone, w: World, case, msgs, wires):
     except CallerStop:
         res = "left:0"
     except BaseException as e:  # noqa: BLE001 - classified below
+        if isinstance(e, _Stalled):
+            raise
         res = "err:" + err_class(e)
     finally:
         signal.alarm(0)
@@ -693,6 +698,8 @@ def eval_legacy(ctx: Ctx, c: dict):
     except Hang:
         res = "hang"
     except BaseException as e:  # noqa: BLE001
+        if isinstance(e, _Stalled):
+            raise
         res = "err:" + err_class(e)
     finally:
         signal.alarm(0)
@@ -788,6 +795,8 @@ def eval_glue(ctx: Ctx, c: dict):
     except Hang:
         res = "hang"
     except BaseException as e:  # noqa: BLE001
+        if isinstance(e, _Stalled):
+            raise
         res = "err:" + err_class(e)
     finally:
         signal.alarm(0)
@@ -880,6 +889,8 @@ def eval_mkq(ctx: Ctx, c: dict):
     except ValueError:
         q, impl = None, "err:ValueError"
     except BaseException as e:  # noqa: BLE001
+        if isinstance(e, _Stalled):
+            raise
         q, impl = None, "err:Foreign:" + type(e).__name__
     ks = w.zone_keys(zone)
     if q is not None:
@@ -914,6 +925,8 @@ def eval_mkq(ctx: Ctx, c: dict):
     except ValueError:
         nimpl = "err:ValueError"
     except BaseException as e:  # noqa: BLE001
+        if isinstance(e, _Stalled):
+            raise
         nimpl = "err:Foreign:" + type(e).__name__
     ctx.corr("c13.xs notquery none", nimpl, c)
     if nimpl != "err:ValueError":
@@ -923,6 +936,8 @@ def eval_mkq(ctx: Ctx, c: dict):
             x = dns.xfr.extract_serial_from_query(q)
             ximpl = f"ok {'none' if x is None else x}"
         except BaseException as e:  # noqa: BLE001
+            if isinstance(e, _Stalled):
+                raise
             x, ximpl = "raised", "err:" + type(e).__name__
         auth = "none"
         for rs in q.authority:
